@@ -73,6 +73,12 @@ CHECKS = {
         'delays are sums of table entries in 0..6, zero when no address is contended; the tables follow the 6,5,4,3,2,1,0,0 pattern on the 48K/128K frame layouts (all 69888+70908 entries compared with the Python lists each run). '
         'The per-instruction cycle breakdown itself is tied between the Python and C copies by differential execution at all phases, not proved against documentation.',
    note=TB + 'translator validated per slot; Model/Contend.lean tied exhaustively (tables) and by correspondence (fold functions)', ref='§8 C19'),
+ 'C17': dict(cat='proof', technique='Lean 4 theorems (induction over digit lists, progressions, balanced push/pop sequences, syntax trees) on a text-level model of expand_macros + model/implementation correspondence + e2e oracles (ASM vs HTML vs position)',
+   text='32 theorems: Python integer semantics of the operators evaluate() lets through (floor division, modulo sign, two\'s-complement bit ops), precedence parser round trip for every syntax tree, '
+        '#EVAL/#N digit round trips at any base/width/sign, #FOR progression and sep/fsep join spec, #FOR = #FOREACH, #MAP lookup, snapshot stack laws (#POPS undoes #PUSHS; any balanced sequence restores memory), '
+        '#POKES frame, #LET visibility, leftmost-first expansion and position independence. Termination is not claimed (fuel-monotone _partial). '
+        'Argument tokenisers and the ASM/HTML relation are correspondence/e2e only; the strip asymmetry between the two writers is a known finding.',
+   note=TB + 'hand models Model/Macro{Text,Expr,Args,Ops,Expand} tied by correspondence (17k cases/run) on fresh AsmWriter/HtmlWriter instances; MacroBitLemmas imports Mathlib.Data.Int.Bitwise', ref='§8 C17'),
 }
 NA = {}
 def main():
